@@ -855,6 +855,18 @@ func (E *Engine) VerifyFunction(fn *ssa.Function, fc *FuncContract) {
 	fr.entry = st.clone()
 	// vacuity: preconditions satisfiable
 	E.addCover(x, st, "requires")
+	// "at call 0 of entry set g = expr": a ghost assignment executed when the function starts (old(g) in
+	// its clauses is still the caller's value)
+	for ai := range fc.Asserts {
+		a := &fc.Asserts[ai]
+		if a.Kind == "set" && a.Callee == "entry" {
+			E.markAssertUsed(fc, ai)
+			v := x.eval(env, a.C.E)
+			if len(v.L) == 1 {
+				st.ghost["ghost!"+a.Ghost] = v.L[0]
+			}
+		}
+	}
 	results := fn.Signature.Results()
 	var mkRet func(fr *Frame) func(st2 *State, res []Val)
 	mkRet = func(fr *Frame) func(st2 *State, res []Val) {
@@ -875,6 +887,23 @@ func (E *Engine) VerifyFunction(fn *ssa.Function, fc *FuncContract) {
 			if x.nret < 4 {
 				x.nret++
 				E.addCover(x, st2, "returns")
+			}
+			// every return statement that the exploration reaches is reached by a satisfiable path (a
+			// contradiction among assumed contracts or type invariants would make whole branches pass vacuously)
+			if x.retSite != "" {
+				if x.retSiteN == nil {
+					x.retSiteN = map[string]int{}
+				}
+				x.retSiteN[x.retSite]++
+				name := fmt.Sprintf("%s.%s#cover:return%s", shortPkg(fnPkgPath(x.fn)), relName(x.fn), x.retSite)
+				if x.retSiteN[x.retSite] <= 6 {
+					E.addCover(x, st2, "return"+x.retSite)
+					if fc != nil && deadReturn(fc, x.retSite) {
+						E.obligs[name].Partial = true // declared unreachable under the contract's assumptions
+					}
+				} else if o, ok := E.obligs[name]; ok {
+					o.Partial = true
+				}
 			}
 			for _, e := range fc.Ensures {
 				E.addPost(x, st2, penv, e)
@@ -1060,6 +1089,17 @@ func mentionsQuantifier(t *Term) bool {
 	}
 	for _, a := range t.Args {
 		if mentionsQuantifier(a) {
+			return true
+		}
+	}
+	return false
+}
+
+// deadReturn: the contract declares the K-th return statement unreachable ("flag deadreturns K K ...": typically an
+// error branch behind a callee whose assumed contract never fails).
+func deadReturn(fc *FuncContract, ord string) bool {
+	for _, f := range strings.Fields(fc.Flags["deadreturns"]) {
+		if f == ord {
 			return true
 		}
 	}
